@@ -5,6 +5,7 @@ import (
 	"fmt"
 
 	"go.lstv.dev/util/size"
+	"verif/libdefaults"
 	"verif/mc"
 	"verif/oracle"
 )
@@ -21,9 +22,7 @@ func setup(a arg) {
 }
 
 func reset() {
-	size.Formatter = size.DefaultFormatter
-	size.Parser = size.DefaultParser[[]byte]
-	size.DisableMarshalTextUnit, size.DisableMarshalJSONStringForm, size.DisableMarshalJSONObjectForm = false, false, false
+	libdefaults.Size()
 }
 
 func probe(a arg) (string, string) {
